@@ -29,7 +29,7 @@ def run(ctx):
     I = load_impl(ctx)
     rng = ctx.rng
     q = ctx.tier == "quick"
-    n_cases = 14 if q else 80
+    n_cases = 7 if q else 14         # per worker process (quick: 4 workers, thorough: 8)
     for it in range(n_cases):
         method = ["neighbor", "neighborK", "bruteforce", "montecarlo", "mc-trunc", "montecarlo", "mc-trunc"][it % 7]
         mc_trunc = method == "mc-trunc"
@@ -110,7 +110,7 @@ def run(ctx):
                 ctx.dist["mc_seed_changes_perms=%s" % (p3 != pa)] += 1
         except Exception as e:  # noqa
             ctx.mismatch("scoring raised", case, impl=exc_name(e) + repr(e))
-        if ctx.elapsed() > (100 if q else 900):
+        if ctx.elapsed() > (600 if q else 2400):
             break
     return ctx.finish("other", "Partial by nature. The model of each method is a pure function of (data, parameters, list of permutations) - there is no other input in "
                       "its signature (C04_estimator/C04_uniform take the permutations as an argument; the kernel, bruteforce and ADD models take none), which is all a "
